@@ -345,7 +345,7 @@ func (ev *tEval) evalFunc(fn *ssa.Function, params []aval, free []aval) []aval {
 	defer func() { ev.stack = ev.stack[:len(ev.stack)-1] }()
 
 	fr := &tFrame{fn: fn, vals: map[ssa.Value]aval{}, params: params, free: free}
-	blocks := fn.DomPreorder()
+	blocks := rpoBlocks(fn)
 	passes := 1
 	for _, b := range blocks {
 		for _, sc := range b.Succs {
@@ -923,4 +923,28 @@ func closedToks(toks []xTok) bool {
 		}
 	}
 	return true
+}
+
+// rpoBlocks: the reachable blocks of fn in reverse postorder, so that (loops aside) every predecessor of a block is
+// evaluated before the block and its phis see all their incoming values in one pass.
+func rpoBlocks(fn *ssa.Function) []*ssa.BasicBlock {
+	var post []*ssa.BasicBlock
+	seen := map[*ssa.BasicBlock]bool{}
+	var dfs func(b *ssa.BasicBlock)
+	dfs = func(b *ssa.BasicBlock) {
+		seen[b] = true
+		for _, s := range b.Succs {
+			if !seen[s] {
+				dfs(s)
+			}
+		}
+		post = append(post, b)
+	}
+	if len(fn.Blocks) > 0 {
+		dfs(fn.Blocks[0])
+	}
+	for i, j := 0, len(post)-1; i < j; i, j = i+1, j-1 {
+		post[i], post[j] = post[j], post[i]
+	}
+	return post
 }
